@@ -48,8 +48,8 @@ pub struct Case {
     pub noise: Vec<(usize, Op, String)>,
 }
 
-const CATEGORIES: [&str; 12] = [
-    "domain", "sdo-id", "version", "truncated", "bad-length", "malformed-tlv", "announce-unacceptable-master", "announce-own-port-identity",
+const CATEGORIES: [&str; 13] = [
+    "domain", "sdo-id", "version", "truncated", "bad-length", "malformed-tlv", "announce-unacceptable-master", "announce-own-port-identity", "announce-unacceptable-own-clock-other-port",
     "sync-non-parent", "followup-non-parent", "delayresp-non-parent", "delayresp-other-requester",
 ];
 
@@ -95,6 +95,18 @@ fn make_noise(rng: &mut StdRng, cat: &str, base: &Msg, ex: &Exec, port: usize) -
             }
             // an identity that is on no list
             m.hdr.src = stranger;
+        }
+        "announce-unacceptable-own-clock-other-port" => {
+            // another port number of the instance's own clock identity while the port's acceptable master
+            // list (kind 2) does not contain it: unacceptable like any other identity that is not listed
+            if m.hdr.msg_type != T_ANNOUNCE || ex.cfg.ports[port].aml != 2 {
+                return None;
+            }
+            let other = if rng.gen_bool(0.5) { own.port.wrapping_sub(1) } else { own.port.wrapping_add(rng.gen_range(1..5)) };
+            if other == own.port {
+                return None;
+            }
+            m.hdr.src = Pid { clock: own.clock, port: other };
         }
         "announce-own-port-identity" => {
             if m.hdr.msg_type != T_ANNOUNCE {
